@@ -29,7 +29,7 @@ theorem flushLoop_eff (g : Cfg) : ∀ (fuel : Nat) (s : S) (ks : List KAns),
       ⟨⟨[], by simp [closeNow], by simp [closeNow]⟩, by simp [closeNow, backlog]⟩
     unfold flushLoop
     split
-    · exact ⟨⟨[], eff_of_D (D_cResetRead g s)⟩, by rw [wl_cResetRead]; exact Nat.le_refl _⟩
+    · exact ⟨⟨[], eff_of_D ((D_cResetRead g (stopTimer s)).trans rfl)⟩, by rw [wl_cResetRead]; exact Nat.le_refl _⟩
     · rename_i d off tl hwl
       simp only
       split
@@ -85,12 +85,9 @@ theorem flush_eff (g : Cfg) (s : S) (ks : List KAns) :
   · exact flushLoop_eff g _ s ks
 
 /-- progress: the kernel has room for the first request ⇒ the backlog strictly decreases -/
-theorem flush_progress (g : Cfg) (s : S) (n0 : Nat) (ks : List KAns) (hc : s.closed = false)
+theorem flushLoop_progress (g : Cfg) (fuel : Nat) (s : S) (n0 : Nat) (ks : List KAns)
     (hp : AllPos s.wl) (hne : s.wl ≠ []) (hn0 : 0 < n0) :
-    backlog (flush g s (.wrote n0 :: ks)).wl < backlog s.wl := by
-  unfold flush
-  rw [if_neg (by simp [hc]), if_neg (by simpa using hne)]
-  show backlog (flushLoop g (ks.length + 1 + 1) s (.wrote n0 :: ks)).wl < _
+    backlog (flushLoop g (fuel + 1) s (.wrote n0 :: ks)).wl < backlog s.wl := by
   unfold flushLoop
   split
   · rename_i hwl; exact absurd hwl hne
@@ -104,10 +101,10 @@ theorem flush_progress (g : Cfg) (s : S) (n0 : Nat) (ks : List KAns) (hc : s.clo
     have hnpos : 0 < n := by subst hn; simp; omega
     rw [if_neg (by omega)]
     split
-    · have := (flushLoop_eff g (ks.length + 1) { s with wire := s.wire ++ (List.drop off d).take n, left := s.left - n, wl := tl } ks).2
+    · have := (flushLoop_eff g fuel { s with wire := s.wire ++ (List.drop off d).take n, left := s.left - n, wl := tl } ks).2
       simp only at this
       omega
-    · have := (flushLoop_eff g (ks.length + 1) { s with wire := s.wire ++ (List.drop off d).take n, left := s.left - n, wl := .buf d (off + n) :: tl } ks).2
+    · have := (flushLoop_eff g fuel { s with wire := s.wire ++ (List.drop off d).take n, left := s.left - n, wl := .buf d (off + n) :: tl } ks).2
       rw [backlog_cons] at this
       simp only [Item.todo] at this
       omega
@@ -121,12 +118,98 @@ theorem flush_progress (g : Cfg) (s : S) (n0 : Nat) (ks : List KAns) (hc : s.clo
     have hnpos : 0 < n := by subst hn; omega
     rw [if_neg (by omega)]
     split
-    · have := (flushLoop_eff g (ks.length + 1) { s with wire := s.wire ++ fileRange g off n, wl := tl } ks).2
+    · have := (flushLoop_eff g fuel { s with wire := s.wire ++ fileRange g off n, wl := tl } ks).2
       simp only at this
       omega
-    · have := (flushLoop_eff g (ks.length + 1) { s with wire := s.wire ++ fileRange g off n, wl := .file (off + n) (rem - n) :: tl } ks).2
+    · have := (flushLoop_eff g fuel { s with wire := s.wire ++ fileRange g off n, wl := .file (off + n) (rem - n) :: tl } ks).2
       rw [backlog_cons] at this
       simp only [Item.todo] at this
       omega
+
+/-- interrupted attempts (EINTR) before the kernel takes something do not matter -/
+theorem flushLoop_progress_eintr (g : Cfg) (k : Nat) : ∀ (fuel : Nat) (s : S) (n0 : Nat) (ks : List KAns),
+    AllPos s.wl → s.wl ≠ [] → 0 < n0 →
+    backlog (flushLoop g (fuel + 1 + k) s (List.replicate k .eintr ++ .wrote n0 :: ks)).wl < backlog s.wl := by
+  induction k with
+  | zero => intro fuel s n0 ks hp hne hn0; simpa using flushLoop_progress g fuel s n0 ks hp hne hn0
+  | succ k ih =>
+    intro fuel s n0 ks hp hne hn0
+    have h := ih fuel s n0 ks hp hne hn0
+    rw [List.replicate_succ, List.cons_append, show fuel + 1 + (k + 1) = (fuel + 1 + k) + 1 by omega]
+    unfold flushLoop
+    split
+    · rename_i hwl; exact absurd hwl hne
+    · rename_i d off tl hwl
+      have hpos : off < d.length := hp (Item.buf d off) (by rw [hwl]; simp)
+      simp only
+      rw [if_neg (by simp; omega)]
+      exact h
+    · rename_i off rem tl hwl
+      have hpos : 0 < rem := hp (Item.file off rem) (by rw [hwl]; simp)
+      rw [if_neg (by omega)]
+      exact h
+
+theorem flush_progress_eintr (g : Cfg) (s : S) (k n0 : Nat) (ks : List KAns) (hc : s.closed = false)
+    (hp : AllPos s.wl) (hne : s.wl ≠ []) (hn0 : 0 < n0) :
+    backlog (flush g s (List.replicate k .eintr ++ .wrote n0 :: ks)).wl < backlog s.wl := by
+  unfold flush
+  rw [if_neg (by simp [hc]), if_neg (by simpa using hne)]
+  have : (List.replicate k KAns.eintr ++ KAns.wrote n0 :: ks).length + 1 = (ks.length + 1) + 1 + k := by
+    simp; omega
+  rw [this]
+  exact flushLoop_progress_eintr g k (ks.length + 1) s n0 ks hp hne hn0
+
+theorem flush_progress (g : Cfg) (s : S) (n0 : Nat) (ks : List KAns) (hc : s.closed = false)
+    (hp : AllPos s.wl) (hne : s.wl ≠ []) (hn0 : 0 < n0) :
+    backlog (flush g s (.wrote n0 :: ks)).wl < backlog s.wl := by
+  simpa using flush_progress_eintr g s 0 n0 ks hc hp hne hn0
+
+/-- flush looks at the queue and the closed flag only -/
+theorem flush_backlog_congr (g : Cfg) (s t : S) (ks : List KAns) (h1 : t.closed = s.closed) (h3 : t.wl = s.wl) :
+    backlog (flush g t ks).wl = backlog (flush g s ks).wl := by
+  have e : ∀ fuel (a b : S) (ks : List KAns), a.wl = b.wl →
+      (flushLoop g fuel a ks).wl.map Item.todo = (flushLoop g fuel b ks).wl.map Item.todo := by
+    intro fuel
+    induction fuel with
+    | zero => intro a b ks h; simp [flushLoop, h]
+    | succ fuel ih =>
+      intro a b ks h
+      unfold flushLoop
+      rw [← h]
+      split
+      · rw [wl_cResetRead, wl_cResetRead]; show a.wl.map Item.todo = b.wl.map Item.todo; rw [h]
+      · simp only
+        split
+        · exact ih a b ks h
+        split
+        · rw [h]
+        · rw [h]
+        · exact ih a b _ h
+        · simp [closeNow]
+        · split
+          · exact ih a b _ h
+          split
+          · exact ih _ _ _ rfl
+          · exact ih _ _ _ rfl
+      · split
+        · exact ih a b ks h
+        split
+        · rw [h]
+        · rw [h]
+        · exact ih a b _ h
+        · simp [closeNow]
+        · simp only
+          split
+          · exact ih a b _ h
+          split
+          · exact ih _ _ _ rfl
+          · exact ih _ _ _ rfl
+  unfold flush
+  rw [h1, h3]
+  split
+  · rw [h3]
+  split
+  · rw [h3]
+  · simp only [backlog]; rw [e _ t s ks h3]
 
 end ConnFull
